@@ -126,8 +126,28 @@ def check_reader(case):
 
 
 def reader_cases(tier):
-    return S.any_frame_cases(big_bodies=True).filter(
+    small = S.any_frame_cases(big_bodies=True).filter(
         lambda c: c['kind'] != 'protocol')
+    # every kind must also be read back when its payload is larger than 64 KiB / 128 KiB
+    big_methods = S.method_cases(6, True).map(lambda c: dict(c, kind='method'))
+    big_headers = S.big_header_cases().map(lambda c: dict(c, kind='header'))
+    return st.one_of(small, small, small, big_methods, big_headers)
+
+
+def big_sweep(tier, shard, nshards):
+    out = []
+    for n in (65535, 65536, 131056, 131057, 131072, 131073, 200000):
+        out.append({'kind': 'method', 'cls': 'Connection.Secure', 'ch': 1,
+                    'args': {'challenge': 'c' * n}})
+        out.append({'kind': 'method', 'cls': 'Queue.Declare', 'ch': 2,
+                    'args': {'ticket': 0, 'queue': 'q', 'passive': False,
+                             'durable': False, 'exclusive': False,
+                             'auto_delete': False, 'nowait': False,
+                             'arguments': {'big': 'a' * n}}})
+        out.append({'kind': 'header', 'ch': 3, 'body_size': n,
+                    'props': {'headers': {'big': 'h' * n}}})
+        out.append({'kind': 'body', 'ch': 4, 'data': b'\xce' * min(n, 131072)})
+    return out[shard::nshards]
 
 
 COMPONENTS = [
@@ -142,6 +162,11 @@ COMPONENTS = [
               nontrivial=peek_nontrivial, classes=peek_classes,
               budget={'quick': 32000, 'thorough': 640000},
               describe='uniform random buffers of length 0..64'),
+    Component('reader-big', check_reader, cases=big_sweep,
+              nontrivial=lambda c: True, classes=lambda c: ['kind=' + c['kind']],
+              shards={'quick': 4, 'thorough': 4},
+              describe='method, header and body frames with payloads around 64 KiB, '
+                       '128 KiB and beyond'),
     Component('reader', check_reader, strategy=reader_cases,
               nontrivial=lambda c: c['kind'] != 'heartbeat',
               classes=lambda c: ['kind=' + c['kind']],
